@@ -168,6 +168,7 @@ def run(R):
                  ok, where=b.where(c.ln))
     r3(R)
     r4_to_r8(R, tr, inc)
+    r9(R, inc)
     # ---- R2
     impls = [b for b in prog.bodies.values() if b.self_adt == "shared::provenance::ExpirationProvenance" and b.r.get("impl_trait", "").endswith("Provenance")]
     bym = {b.name: b for b in impls}
@@ -553,3 +554,38 @@ def r5_r6(R):
             R.ob("C12-R6", "consumes:" + b.short, "the delta of a later round includes the facts queued in self.delta_improved", ok, where=b.where(c.ln),
                  detail=None if ok else "facts whose tag improved are queued but never joined again: consequences keep the stale, too-early expiry")
             # the same local on every path (no branch that builds the delta without the queue, except the first round)
+
+
+def r9(R, inc):
+    """every alive fact is a known fact of the reasoner"""
+    prog = R.prog
+    R.rule("C12-R9", "every alive fact is known to the reasoner: the incremental path inserts ALL carried-over and ALL new / renewed facts into "
+                     "the reasoner's index before the fixpoint (whole collections, no iteration skipped) - a fact that is alive but unknown is "
+                     "re-derived as `new` and its kept expiry is overwritten instead of maximised")
+    if inc is None:
+        return
+    ins = []
+    for c in inc.calls():
+        if c.name() == "insert" and len(c.args) == 2:
+            o = inc.origin(c.args[0], stop_named=False)
+            if o[0] == "place" and any(e.get("n") == "dataset_index" for e in o[1]["p"]):
+                ins.append(c)
+    R.ob("C12-R9", "loads", "incremental_sds_plus loads facts into the reasoner's index (found %d insert site)" % len(ins), len(ins) >= 1, where=inc.where())
+    roles = set()
+    for c in ins:
+        drv = P.loop_driver(inc, c.bb)
+        if drv is None or drv[2] is None:
+            R.ob("C12-R9", "in-loop", "the insertion runs in a loop over a fact collection", False, where=inc.where(c.ln))
+            continue
+        h, blocks, t = drv
+        names, roots = P.flat(t)
+        trunc = [n for n in names if n not in ("iter", "into_iter", "deref", "chain", "cloned", "copied")]
+        for r in roots:
+            if r["k"] == "root":
+                roles.add(_role(inc, r))
+        skip = P.skips_effect(inc, h, blocks, {c.bb})
+        R.ob("C12-R9", "whole:%s" % "+".join(sorted(_role(inc, r) for r in roots if r["k"] == "root")), "the loop inserts every element (pipeline %s), no iteration skipped"
+             % names, not trunc and not skip, where=inc.where(c.ln),
+             detail=None if (not trunc and not skip) else "facts that are set aside (e.g. because no rule body mentions their predicate) are unknown to the reasoner: "
+             "when a rule concludes one of them again it counts as new and its tag is set, not merged")
+    R.ob("C12-R9", "both-sets", "both the carried-over and the new / renewed facts are loaded (roles found: %s)" % sorted(roles), {"old", "new"} <= roles, where=inc.where())
